@@ -93,6 +93,10 @@ def check_roundtrip(fd, via='file'):
     except Exception as exc:  # noqa: BLE001
         return [fail('build-raises', f'{exc!r}', exc=exc_sig(exc))]
     out = []
+    # the caller owns what merge_tracks returned earlier: scribbling on it must not reach any file saved later
+    earlier = mido.merge_tracks([mido.MidiTrack([mido.Message('note_on', time=5)]), mido.MidiTrack()])
+    earlier[-1].time = 960
+    earlier[0].time = 7
     cs = fd.get('charset')
     if cs is not None:
         # a file with another text encoding than the default: set after construction or handed to the constructor
